@@ -1,0 +1,101 @@
+//go:build verif
+
+// Contracts for package maptile, read by the VC generator in /verif (govc). Comments only.
+// Integer tile arithmetic is verified in bit-vector mode (`mode bv`): uint32/uint64 are exact
+// 32/64-bit vectors with Go's shift semantics. Zoom is at most 30 (2^z fits the coordinates).
+
+package maptile
+
+//@ spec valid(t Tile) bool = t.Z <= 30 && t.X < (1 << t.Z) && t.Y < (1 << t.Z)
+
+//@ func (Tile).Valid(t)
+//@   mode bv
+//@   pure
+//@   ensures t.Z <= 30 ==> result == valid(t)
+
+//@ func (Tile).Parent(t)
+//@   mode bv
+//@   pure
+//@   ensures valid(t) ==> valid(result)
+//@   ensures t.Z > 0 ==> result.Z == t.Z - 1 && result.X == t.X >> 1 && result.Y == t.Y >> 1
+//@   ensures t.Z == 0 ==> result == t
+
+// anc(t, u): t is an ancestor of (or equal to) u in the tile quadtree
+//@ spec anc(t Tile, u Tile) bool = u.Z >= t.Z && (u.X >> (u.Z - t.Z)) == t.X && (u.Y >> (u.Z - t.Z)) == t.Y
+
+//@ func (Tile).Children(t)
+//@   mode bv
+//@   modifies nothing
+//@   ensures len(result) == 4 && fresh(result)
+//@   ensures valid(t) && t.Z < 30 ==> valid(result[0]) && valid(result[1]) && valid(result[2]) && valid(result[3])
+//@   ensures valid(t) && t.Z < 30 ==> result[0].Z == t.Z + 1 && result[0].X >> 1 == t.X && result[0].Y >> 1 == t.Y && result[1].Z == t.Z + 1 && result[1].X >> 1 == t.X && result[1].Y >> 1 == t.Y
+//@   ensures valid(t) && t.Z < 30 ==> result[2].Z == t.Z + 1 && result[2].X >> 1 == t.X && result[2].Y >> 1 == t.Y && result[3].Z == t.Z + 1 && result[3].X >> 1 == t.X && result[3].Y >> 1 == t.Y
+//@   ensures result[0] != result[1] && result[0] != result[2] && result[0] != result[3] && result[1] != result[2] && result[1] != result[3] && result[2] != result[3]
+//@   ensures valid(t) && t.Z < 30 ==> (forall u Tile :: u.Z == t.Z + 1 && u.X >> 1 == t.X && u.Y >> 1 == t.Y ==> u == result[0] || u == result[1] || u == result[2] || u == result[3])
+
+//@ func (Tile).toZoom(t, z)
+//@   mode bv
+//@   pure
+//@   ensures result.Z == z
+//@   ensures z <= t.Z ==> result.X == t.X >> (t.Z - z) && result.Y == t.Y >> (t.Z - z)
+//@   ensures z > t.Z ==> result.X == t.X << (z - t.Z) && result.Y == t.Y << (z - t.Z)
+
+//@ func (Tile).Contains(t, tile)
+//@   mode bv
+//@   pure
+//@   ensures result == anc(t, tile)
+
+//@ func (Tile).SharedParent(t, tile)
+//@   mode bv
+//@   pure
+//@   ensures valid(t) && valid(tile) ==> valid(result)
+//@   ensures valid(t) && valid(tile) ==> anc(result, t) && anc(result, tile)
+//@   ensures valid(t) && valid(tile) ==> (forall c Tile :: valid(c) && anc(c, t) && anc(c, tile) ==> anc(c, result))
+
+//@ func (Tile).Range(t, z) (min, max)
+//@   mode bv
+//@   pure
+//@   ensures z < t.Z ==> min == max && min.Z == z && min.X == t.X >> (t.Z - z) && min.Y == t.Y >> (t.Z - z)
+//@   ensures valid(t) && z >= t.Z && z <= 30 ==> min.Z == z && max.Z == z && (forall u Tile :: u.Z == z && valid(u) ==> (anc(t, u) <==> min.X <= u.X && u.X <= max.X && min.Y <= u.Y && u.Y <= max.Y))
+
+// anc is the reflexive-transitive closure of Parent: one step up preserves/reflects it
+//@ lemma anc_parent_step: forall t Tile, u Tile :: valid(t) && valid(u) && u.Z > t.Z ==> (anc(t, u) <==> anc(t, mk(Tile, u.X >> 1, u.Y >> 1, u.Z - 1)))
+//@   mode bv
+//@ lemma anc_reflexive: forall t Tile :: anc(t, t)
+//@   mode bv
+//@ lemma anc_transitive: forall a Tile, b Tile, c Tile :: valid(a) && valid(b) && valid(c) && anc(a, b) && anc(b, c) ==> anc(a, c)
+//@   mode bv
+//@ lemma anc_antisymmetric: forall a Tile, b Tile :: anc(a, b) && anc(b, a) ==> a == b
+//@   mode bv
+
+// ---- quadkeys: bit i of X is bit 2i of the key, bit i of Y is bit 2i+1 (loops unrolled to the operand width)
+
+//@ func (Tile).Quadkey(t)
+//@   mode bv
+//@   pure
+//@   requires t.Z <= 32
+//@   loop 1: unroll 32
+//@   ensures forall i uint64 :: i < uint64(t.Z) ==> (result >> (2*i)) & 1 == (uint64(t.X) >> i) & 1 && (result >> (2*i + 1)) & 1 == (uint64(t.Y) >> i) & 1
+//@   ensures t.Z < 32 ==> result >> (2 * uint64(t.Z)) == 0
+
+//@ func FromQuadkey(k, z)
+//@   mode bv
+//@   pure
+//@   requires z <= 32
+//@   loop 1: unroll 32
+//@   ensures result.Z == z
+//@   ensures forall i uint32 :: i < uint32(z) ==> (result.X >> i) & 1 == uint32((k >> (2 * uint64(i))) & 1) && (result.Y >> i) & 1 == uint32((k >> (2 * uint64(i) + 1)) & 1)
+//@   ensures z < 32 ==> result.X >> uint32(z) == 0 && result.Y >> uint32(z) == 0
+
+// round trip: a key with exactly the interleaved bits of a valid tile decodes to that tile
+//@ lemma quadkey_roundtrip: forall t Tile, k uint64, r Tile :: valid(t) && (forall i uint64 :: i < uint64(t.Z) ==> (k >> (2*i)) & 1 == (uint64(t.X) >> i) & 1 && (k >> (2*i + 1)) & 1 == (uint64(t.Y) >> i) & 1) && r.Z == t.Z && (forall i uint32 :: i < uint32(t.Z) ==> (r.X >> i) & 1 == uint32((k >> (2 * uint64(i))) & 1) && (r.Y >> i) & 1 == uint32((k >> (2 * uint64(i) + 1)) & 1)) && r.X >> uint32(t.Z) == 0 && r.Y >> uint32(t.Z) == 0 ==> r == t
+//@   mode bv
+
+// ---- tile of a point: the longitude part is decided bit-precisely in IEEE-754; the latitude part
+// only on its two clamp branches (the middle branch goes through sin/log, uninterpreted here).
+//@ func At(ll, z)
+//@   mode bv
+//@   modifies nothing
+//@   ensures z <= 30 && ll[0] >= -180 && ll[0] <= 180 ==> result.X < (1 << z)
+//@   ensures z <= 30 && (ll[1] < -85.0511 || ll[1] > 85.0511) ==> result.Y < (1 << z)
+//@   ensures result.Z == z
